@@ -318,7 +318,11 @@ Raw(s, ch, e) ==
          ELSE IF ch \in RegexPlain \cup ULetter THEN s ELSE [s EXCEPT !.st[n].fv = TRUE]
     [] top.k = "bstr" ->      \* top.t: the hex digits a \x escape still swallows (whatever they are)
          IF ch > 127 \/ ch < 1 THEN SynW(s, "non-ascii-in-byte-string")
-         ELSE IF top.t # <<>> THEN [s EXCEPT !.st[n].t = Tail(@), !.st[n].fv = (top.fv \/ ch \notin Hex)]
+         ELSE IF top.t # <<>> THEN
+            (IF ch \in Hex THEN [s EXCEPT !.st[n].t = Tail(@)]
+             \* a non-hex character where a hex digit is due: a malformed escape -- the reader may report the
+             \* syntax error at once (even if the character is the closing quote and the input ends here)
+             ELSE Maybe([s EXCEPT !.st[n].t = Tail(@), !.st[n].fv = TRUE]))
          ELSE IF top.esc THEN [s EXCEPT !.st[n].esc = FALSE, !.st[n].t = IF ch = 120 THEN <<1, 1>> ELSE <<>>]
          ELSE IF ch = BS THEN [s EXCEPT !.st[n].esc = TRUE]
          ELSE IF ch = DQ THEN Emit(IF top.fv THEN Maybe(below) ELSE below, [Form("bytes", <<>>, <<>>) EXCEPT !.ex = FALSE], e)
